@@ -146,4 +146,16 @@ PROPS = {
         "assumptions": ["fill_buf exposes a non-empty prefix of the remaining bytes unless at end of input", "single injected fault per run (the property's quantifier)"],
         "partial": ["whole-decoder schedule independence and fault propagation are enumerated on a corpus, not proved (they depend on std I/O adaptors and on every `?` in the Rust code)"],
     },
+    "C03": {
+        "technique": "Lean 4 invariant/no-overflow theorems for the modelled components (collected from C06/C10/C12/C15 + new bounds) + structured corruption stream against a checked build with time budget; container-parser outcome correspondence on arbitrary bytes",
+        "level_text": "Partial by construction and said so. Theorems (all inputs): blending never overflows u32 and its debug_asserts hold; every boolean-decoder read re-establishes the register invariant (shift amounts 0..31, range 128..255), exhaustion is sticky; the lossless bit reader keeps nbits <= 63 and a valid window under every schedule; read_frame's geometry checks imply composite_frame never indexes out of bounds, for every canvas/frame/flag combination; the canvas size fits usize; the prefix-code counter of build_implicit stays below 2^32 for any length vector over any alphabet the format allows; a chunk-header read consumes exactly 8 bytes (scan loop progress). Not theorems, monitored on every run: VP8 reconstruction, lossless transforms and decode_image_data indices, allocation, wall time - by a corruption stream (every prefix, every size field x 13 boundary values, every fourcc x 8 replacements, 28 bytes after each chunk header x 5 values, random flips, chunk deletion/duplication, crafted cross-field disagreements incl. ANMF-vs-VP8 sizes, over-subscribed code lengths, 2^30-pixel canvases in the thorough tier) driven through the whole public API under catch_unwind in a build with overflow checks and debug assertions, with a time budget proportional to input size + declared pixels. The container parser's outcome on every corrupted file up to 4 KiB is also compared with the total Lean function Container.openFile.",
+        "level_note": "Trusted: Lean kernel + standard axioms for the theorem part; for the monitored part the assurance is that of structured fault enumeration, not proof. Aborts (allocation failure) cannot be caught in-process: a crashing harness is reported as a violation without input.",
+        "design_ref": "DESIGN.md section 4, C03",
+        "trusted_base": COMMON_TB + [
+            "modelled, not verified: as in C06, C08, C10, C12, C15 (the models are total; failure values are explicit)",
+            "specification: the property itself (Ok or DecodingError; bounded time)",
+        ],
+        "assumptions": ["64-bit usize", "output buffers above 64 MiB are not allocated in the quick tier (5 GiB in the thorough tier), so reads of such files are skipped there"],
+        "partial": ["no-panic theorems exist only for the modelled components; VP8 reconstruction, lossless transforms and decode_image_data are covered by the corruption stream only"],
+    },
 }
